@@ -22,6 +22,7 @@ pub fn verif_from_raw_parts<'a>(bytes: &'a [u8], n: usize) -> (r: &'a [u64])
 pub assume_specification[ u64::from_be ](x: u64) -> (r: u64) ensures r == u64_from_be_spec(x);
 /// R22: `a.iter_mut().zip(b).for_each(|(l, r)| *l ^= r)`
 pub closed spec fn xor_seq(a: Seq<u8>, b: Seq<u8>) -> Seq<u8> { Seq::new(a.len(), |i: int| if i < b.len() { a[i] ^ b[i] } else { a[i] }) }
+pub proof fn lemma_xor_len(a: Seq<u8>, b: Seq<u8>) ensures xor_seq(a, b).len() == a.len() {}
 pub trait XorSrc { spec fn xs(&self) -> Seq<u8>; }
 impl XorSrc for BytesMut { open spec fn xs(&self) -> Seq<u8> { self@ } }
 impl<'a> XorSrc for &'a [u8] { open spec fn xs(&self) -> Seq<u8> { (**self)@ } }
